@@ -226,3 +226,27 @@ mod vx_kani_paths {
         assert!(path_from_name_chain(&[]) == Path::new("/"));
     }
 }
+
+//@append src/internal/stream_buffer.rs
+// ---- K9c (BOUNDED: the listed sizes; quick tier): StreamBuffer::write_bytes at the smallest maximum size (1024): an input larger than
+// the whole buffer is accepted up to the buffer's size (a short write, never a refusal), a full buffer that cannot grow refuses,
+// and after clear() it accepts again.  Independent of the shape of the function body (a rewritten body with a new loop is rejected
+// by the Verus front end and would otherwise end undecided).
+#[cfg(kani)]
+mod vx_kani_buffer_listed {
+    use super::StreamBuffer;
+
+    #[kani::proof]
+    #[kani::unwind(3)]
+    fn k_stream_buffer_write_listed() {
+        let mut b = StreamBuffer::new(1);            // clamped to the 1024-byte minimum
+        let data = [7u8; 1025];
+        let r = b.write_bytes(&data);
+        assert!(r == Some(1024) && b.cursor() == 1024 && b.filled_len() == 1024);
+        assert!(b.write_bytes(&data).is_none());
+        b.clear();
+        assert!(b.write_bytes(&data[..10]) == Some(10) && b.cursor() == 10 && b.filled_len() == 10);
+        assert!(b.filled_slice()[9] == 7);
+    }
+}
+
